@@ -118,6 +118,7 @@ class FakeSocket:
         if not self.rx:
             raise BlockingIOError(errno.EAGAIN, "would block")
         item = self.rx.pop(0)
+        self.world.recv_count += 1
         if isinstance(item, tuple) and item[0] == "err":
             raise OSError(item[1], f"scripted receive error {item[1]}")
         if isinstance(item, tuple) and item[0] == "eof":
@@ -215,6 +216,7 @@ class World:
 
     def __init__(self, max_time=None, max_transmissions=None, max_connects=None):
         self.max_connects = max_connects
+        self.recv_count = 0
         self.now = 0
         self.sockets = {}
         self.all_sockets = {}
